@@ -169,9 +169,9 @@ def in_cache(tok, cache):
     P, pf = parse_tok(tok)
     for F in cache:
         Q, qf = parse_tok(F)
-        if Q == P and (qf == pf or (qf == '[]' and pf in ('', '[]')) or (pf == '[]' and qf == '@lru')):
+        if Q == P and (qf == pf or qf == '' or (qf == '[]' and pf in ('', '[]')) or (pf == '[]' and qf == '@lru')):
             return True
-        if len(Q) < len(P) and P[:len(Q)] == Q and qf == '[]':
+        if len(Q) < len(P) and P[:len(Q)] == Q and qf in ('', '[]'):
             return True
     return False
 
